@@ -258,3 +258,22 @@ Proof.
   cbv zeta. split; [vm_compute; reflexivity|]. intros H.
   apply (f_equal (fun g => PrimFloat.eqb (c01_first_x g) 0.5%float)) in H. vm_compute in H. discriminate.
 Qed.
+
+(* ================= derived objects (crop / strided slice / copy of an area that holds lon/lats) =================
+   AreaDefinition.__getitem__ and copy() build a NEW AreaDefinition whose cache is empty; whatever cache a derived object
+   starts with, its histories are those of a fresh object as long as that cache is empty or the derived area's OWN lon/lats. *)
+(* the variant that carries the parent's cached lon/lats over as parent.lons[yslice, xslice]: for a strided slice the derived
+   pixels are block centres, not every step-th parent pixel.  parent 2x4 on [0,4]x[0,2], child = parent[:, ::2] (2x2, same extent) *)
+Lemma c01_derived_carried_cache_refuted :
+  let parent := mk_area 0%float 0%float 4%float 2%float 4 2 in
+  let child := mk_area 0%float 0%float 4%float 2%float 2 2 in
+  let id := fun p : float * float => p in
+  let carried := c01_slice_cached F64 (c01_fresh_lonlats F64 id parent None None) (Some ([0; 1], [0; 2])) in
+  let ops := [OpLonlats None None false] in
+  Forall (c01_op_ok child) ops /\
+  c01_run F64 id id child false (Some carried) ops <> map (c01_stateless F64 id id child) ops /\
+  c01_run F64 id id child false None ops = map (c01_stateless F64 id id child) ops.
+Proof.
+  cbv zeta. split; [repeat constructor|]. split; [|vm_compute; reflexivity].
+  intros H. apply (f_equal (fun l => PrimFloat.eqb (c01_first_x (nth 0 l [])) 0.5%float)) in H. vm_compute in H. discriminate.
+Qed.
